@@ -77,7 +77,7 @@ func widenResponses(r *vh.RNG, d *dg.Design) {
 			}
 			nTag := 1 + r.Intn(3)
 			pos := r.Intn(nTag + 1) // where the tagless response goes
-			noTagless := false // goa rejects designs whose responses all define a Tag
+			noTagless := false      // goa rejects designs whose responses all define a Tag
 			perm := []int{0, 1, 2, 3}
 			for i := 3; i > 0; i-- {
 				j := r.Intn(i + 1)
@@ -240,7 +240,9 @@ func coveringResponseTypes() []*dg.UserType {
 func coveringResponseCases(prop string) []witnessCase {
 	var cs []witnessCase
 	r := func(m string, v *dg.Val) { cs = append(cs, witnessCase{Method: m, Result: v}) }
-	derived := func() *dg.Val { return vO("bh", vS("hv"), "bc", vS("cv"), "bq", vI(-3), "bb", vS("body"), "own", vS("o")) }
+	derived := func() *dg.Val {
+		return vO("bh", vS("hv"), "bc", vS("cv"), "bq", vI(-3), "bb", vS("body"), "own", vS("o"))
+	}
 	if prop == "C03" {
 		for _, oc := range []string{"created", "accepted", "other"} {
 			r("trmid", vO("outcome", vS(oc), "kind", vS("k"), "n", vI(3), "name", vS("nm")))
@@ -285,9 +287,16 @@ func inhShadow() *dg.Design {
 				Headers: []dg.MapEntry{me("bh", "X-Bh")}, Cookies: []dg.MapEntry{me("bc", "bc_ck")}, Params: []dg.MapEntry{me("bq", "")}}},
 		{Name: "pref", Payload: obj(dg.F("rh", str()).With(dg.Validation{MaxLen: dg.Ip(20)}), dg.F("rb", str())),
 			Result: obj(dg.F("ok", boolT())),
-			HTTP: &dg.HTTPMap{Routes: []dg.Route{{Verb: "POST", Path: "/pref"}}, Headers: []dg.MapEntry{me("rh", "X-Rh")}}},
+			HTTP:   &dg.HTTPMap{Routes: []dg.Route{{Verb: "POST", Path: "/pref"}}, Headers: []dg.MapEntry{me("rh", "X-Rh")}}},
 	}
-	return &dg.Design{Name: "inh", Services: []*dg.Service{svc}, Features: []string{"inline_extend_reference"}}
+	// the status set INSIDE the response function: Response(func(){ Code(StatusCreated) })
+	svc.Methods = append(svc.Methods,
+		&dg.Method{Name: "rcode", Result: obj(dg.Req("name", str())),
+			HTTP: &dg.HTTPMap{Routes: []dg.Route{{Verb: "GET", Path: "/rcode"}}, Responses: []dg.Response{{Status: 201}}}},
+		&dg.Method{Name: "rcodet", Result: obj(dg.Req("name", str()), dg.F("kind", str())),
+			HTTP: &dg.HTTPMap{Routes: []dg.Route{{Verb: "GET", Path: "/rcodet"}},
+				Responses: []dg.Response{{Status: 202, Tag: []string{"kind", "acc"}}, {Status: 203}}}})
+	return &dg.Design{Name: "inh", Services: []*dg.Service{svc}, Features: []string{"inline_extend_reference", "response_code_in_function"}}
 }
 
 func inhBuild() {
@@ -342,6 +351,28 @@ func inhBuild() {
 				dsl.Param("bq")
 			})
 		})
+		dsl.Method("rcode", func() {
+			dsl.Result(func() {
+				dsl.Attribute("name", expr.String)
+				dsl.Required("name")
+			})
+			dsl.HTTP(func() {
+				dsl.GET("/rcode")
+				dsl.Response(func() { dsl.Code(dsl.StatusCreated) })
+			})
+		})
+		dsl.Method("rcodet", func() {
+			dsl.Result(func() {
+				dsl.Attribute("name", expr.String)
+				dsl.Attribute("kind", expr.String)
+				dsl.Required("name")
+			})
+			dsl.HTTP(func() {
+				dsl.GET("/rcodet")
+				dsl.Response(dsl.StatusAccepted, func() { dsl.Tag("kind", "acc") })
+				dsl.Response(func() { dsl.Code(dsl.StatusNonAuthoritativeInfo) })
+			})
+		})
 		dsl.Method("pref", func() {
 			dsl.Payload(func() {
 				dsl.Reference(refb)
@@ -365,6 +396,10 @@ func inhCases(prop string) []witnessCase {
 		cs = append(cs, witnessCase{Method: "rext", Result: vO("own", vS("only"))})
 		cs = append(cs, witnessCase{Method: "rref", Result: vO("rh", vS("hv"), "rb", vS("b"), "own2", vI(2))})
 		cs = append(cs, witnessCase{Method: "rref", Result: vO("rb", vS("b"))})
+		cs = append(cs, witnessCase{Method: "rcode", Result: vO("name", vS("nm"))})
+		cs = append(cs, witnessCase{Method: "rcodet", Result: vO("name", vS("nm"), "kind", vS("acc"))})
+		cs = append(cs, witnessCase{Method: "rcodet", Result: vO("name", vS("nm"), "kind", vS("zz"))})
+		cs = append(cs, witnessCase{Method: "rcodet", Result: vO("name", vS("nm"))})
 	} else {
 		cs = append(cs, witnessCase{Method: "pext", Payload: vO("bh", vS("hv"), "bc", vS("cv"), "bb", vI(4), "bq", vS("q"), "pown", vS("o")), Result: okRes})
 		cs = append(cs, witnessCase{Method: "pext", Payload: vO("pown", vS("only")), Result: okRes})
